@@ -1082,3 +1082,10 @@ func (w *World) PendingSummary(dir string) (nsOps int, files int) {
 }
 
 const siteDisk = 1
+
+func (f *File) Chmod(mode fs.FileMode) error {
+	if f.real != nil {
+		return f.real.Chmod(mode)
+	}
+	return nil
+}
